@@ -22,7 +22,7 @@ TRUSTED = ["Coq 8.16.1 kernel, vm_compute for the correspondence evaluation",
            "axioms (Print Assumptions): ClassicalDedekindReals.sig_forall_dec, sig_not_dec, "
            "FunctionalExtensionality.functional_extensionality_dep, Classical_Prop.classic (all Coq stdlib Reals)",
            "tools/symtrace.py tracing translator + numpy shim (re-validated numerically each run)",
-           "coq/Agree.v agreement relation (tolerance 1e-9, reference points relative to the input magnitude)",
+           "agreement relation of coq/corr/K_C13.v (unit normals: absolute 1e-9; reference points, centroid, plane offsets, eigen residuals: relative to the largest |coordinate| / covariance entry of the case, no absolute floor)",
            "LAPACK symmetric eigen-solver (np.linalg.eigh): trusted through its contract (orthonormal eigenvectors of "
            "the covariance), which the correspondence re-checks on every fitted cloud against the model's covariance",
            "math.cos / math.sin / arccos: NumPy's values passed as data, re-checked against the model's own "
@@ -32,7 +32,7 @@ TRUSTED = ["Coq 8.16.1 kernel, vm_compute for the correspondence evaluation",
            "NumPy, vg"]
 CASE_IMPORTS = [("PW.model", "M_plane"), ("PW.model", "M_plane_ctor")]
 ASSUMPTIONS = ["theorems are about exact real arithmetic",
-               "fit_from_points is modelled with fixes/C13-fit-real-normal.diff applied (np.linalg.eigh)",
+               "fit_from_points is the code of /repo commit 9820109 (np.linalg.eigh; fixes/C13-fit-real-normal.diff)",
                "fit optimality (C13_fit_is_least_squares_partial) is proved under the eigen-solver contract, not for LAPACK itself",
                "C13_tilted_contains_both uses Reals' cos / sin / acos for math.cos / math.sin / np.arccos"]
 IMPORTS = [("PW.model", "M_plane"), ("PW.model", "M_plane_ctor"), ("PW.proofs", "P_vec")]
@@ -670,7 +670,9 @@ def oracle(c, o):
             return None if "raise" in o else "accepted collinear points"
         if "raise" in o:
             return "from_points raised ValueError for non-collinear points"
-        mag = max([1] + [abs(x) for p in (p1, p2, p3) for x in p])
+        mag = max([Fr(0)] + [abs(x) for p in (p1, p2, p3) for x in p])
+        if o["ref"] != c["p"][0]:
+            return "reference point %r is not p1 %r" % (o["ref"], c["p"][0])
         bad = _plane_ok(o) or _contains(o, p1, mag, "p1") or _contains(o, p2, mag, "p2") or _contains(o, p3, mag, "p3")
         if bad:
             return bad
@@ -684,7 +686,9 @@ def oracle(c, o):
             return None if "raise" in o else "accepted p2 - p1 parallel to the vector"
         if "raise" in o:
             return "from_points_and_vector raised ValueError for a non-degenerate input"
-        mag = max([1] + [abs(x) for p in (p1, p2) for x in p])
+        mag = max([Fr(0)] + [abs(x) for p in (p1, p2) for x in p])
+        if o["ref"] != c["p1"]:
+            return "reference point %r is not p1 %r" % (o["ref"], c["p1"])
         bad = _plane_ok(o) or _contains(o, p1, mag, "p1") or _contains(o, p2, mag, "p2")
         if bad:
             return bad
@@ -696,7 +700,7 @@ def oracle(c, o):
         pts = [_F(p) for p in c["points"]]
         n = len(pts)
         cen = [sum(p[j] for p in pts) / n for j in range(3)]
-        mag = max([1] + [abs(x) for p in pts for x in p])
+        mag = max([Fr(0)] + [abs(x) for p in pts for x in p])
         if "raise" in o:
             return "fit_from_points raised %s: %s" % (o["raise"], o.get("msg"))
         bad = _plane_ok(o)
@@ -719,7 +723,7 @@ def oracle(c, o):
         pl = Plane(np.array(c["ref"]), np.array(c["normal"]))
         newp, cop = np.array(c["new_point"]), np.array(c["coplanar"])
         vo = pl.project_point(newp) - cop
-        mag = max([1.0] + [abs(x) for x in c["new_point"] + c["coplanar"] + c["ref"]])
+        mag = max([0.0] + [abs(x) for x in c["new_point"] + c["coplanar"] + c["ref"]])
         if float(np.linalg.norm(vo)) <= 1e-9 * mag:
             return None  # new point on the rotation axis direction: outside the property's domain
         if abs(float(pl.signed_distance(cop))) > 1e-9 * mag:
@@ -749,7 +753,7 @@ def oracle(c, o):
         if o["e_stack"][i][:3] != o["n_stack"][i]:
             return "plane equation %d does not start with the unit normal" % i
         nrm = _F(o["n_stack"][i])
-        mag = max([1] + [abs(x) for p in (p1, p2, p3) for x in p])
+        mag = max([Fr(0)] + [abs(x) for p in (p1, p2, p3) for x in p])
         if abs(_dot(nrm, nrm) - 1) > Fr(1, 10 ** 9) or _dot(cr, nrm) <= 0:
             return "normal %d is not the unit counter-clockwise normal" % i
         bad = _direction(nrm, cr, _sub(p2, p1), _sub(p3, p1), "plane_normal_from_points row %d" % i)
